@@ -118,7 +118,7 @@ package server
 //@   at-call (*allocation.Manager).GetAllocationForUserID assert [C03,C04:own-tuple] recv == req.AllocationManager && ownTuple(arg0, req) && authOK && arg1 == authUser
 //@   at-call (*allocation.Manager).GrantPermission assert [C01:veto-subject] recv == req.AllocationManager && arg0 == req.SrcAddr && ipStr(arg1) == xorAddrIP(stunMsg, stun.AttrXORPeerAddress)
 //@   at-call (*allocation.Allocation).AddChannelBind assert [C01,C04:own-allocation] recv == ownAlloc(req)
-//@   at-call (*allocation.Allocation).AddChannelBind assert [C01,C02,C07:timeouts] arg1 == req.ChannelBindTimeout && arg2 == req.PermissionTimeout
+//@   at-call (*allocation.Allocation).AddChannelBind assert [C01,C02,C07,C14:timeouts] arg1 == req.ChannelBindTimeout && arg2 == req.PermissionTimeout
 //@   at-call (*allocation.Allocation).AddChannelBind assert [C01,C08:binding] int(arg0.Number) == be16(attr(stunMsg, stun.AttrChannelNumber), 0) && peerMatches(arg0.Peer, stunMsg)
 //@   ensures [C03:answered-only-requester] forall c :: c != req.Conn ==> pktWrites[c] == old(pktWrites[c])
 
@@ -166,7 +166,7 @@ package server
 //@   requires [C01:permKeys] permKeysOK(alloc)
 //@   at-call (*allocation.Manager).GrantPermission assert [C01:veto-subject] recv == req.AllocationManager && arg0 == req.SrcAddr && ipStr(arg1) == xorAddrIP(m, stun.AttrXORPeerAddress)
 //@   at-call (*allocation.Allocation).AddPermission assert [C01,C04:own-allocation] recv == alloc
-//@   at-call (*allocation.Allocation).AddPermission assert [C01,C02,C07:timeout] arg0.timeout == req.PermissionTimeout
+//@   at-call (*allocation.Allocation).AddPermission assert [C01,C02,C07,C14:timeout] arg0.timeout == req.PermissionTimeout
 //@   at-call (*allocation.Allocation).AddPermission assert [C01:peer] peerMatches(arg0.Addr, m)
 //@   assigns entries(alloc.permissions), timers, granted, errorCode, addCount
 
